@@ -99,6 +99,13 @@ CORPUS = {
     "two-swaps-in-one-block": S("a = 1\nb = 2\nc = 3\nd = 4\nwhile True:\n    a, b = b, a\n    c, d = d, c\n    a, c = c, a\n    mon.write(a)\n    mon.write(b)\n    mon.write(c)\n    mon.write(d)\n    sleep(1)\n"),
     "mutually-recursive-helpers": S("def even(n):\n    if n == 0:\n        return 1\n    return odd(n - 1)\ndef odd(n):\n    if n == 0:\n        return 0\n    return even(n - 1)\nk = 0\nwhile True:\n    r = even(k)\n    mon.write(r)\n    k = k + 1\n    sleep(1)\n"),
     "helper-continue-in-value-returning-loop": S("def count_odd(n):\n    c = 0\n    for i in range(n):\n        if i % 2 == 0:\n            continue\n        c = c + 1\n    return c\nk = 2\nwhile True:\n    r = count_odd(k)\n    mon.write(r)\n    k = k + 1\n    sleep(1)\n"),
+    "fstring-format-spec-and-conversion": S("n = 7\nname = 'pump'\nv = 42\nmon.write(f'id={n:03d}')\nmon.write(f'[{v:>5}]')\nmon.write(f'dev={name!r}')\n"),
+    "parameter-shadows-global-string-and-list": S("label = 'hello'\ndata = [1, 2, 3, 4]\ndef width(label):\n    return len(label)\ndef total(data):\n    t = 0\n    for i in range(len(data)):\n        t = t + data[i]\n    return t\n"
+                                                  "w = width('hi')\nmon.write(w)\ns2 = total([5, 6])\nmon.write(s2)\nmon.write(width(label))\n"),
+    "helper-with-nested-blocks-two-signatures": S("def clamp_report(v, hi):\n    if v > hi:\n        mon.write('over')\n        v = hi\n    for i in range(2):\n        if i == 1:\n            mon.write('tick')\n    return v\n"
+                                                  "a = clamp_report(3, 10)\nmon.write(a)\nx = 12.5\nb = clamp_report(x, 10)\nmon.write(b + 0.5)\ny = 1.5\nc = clamp_report(y, 10)\nmon.write(c)\n"),
+    "flash-pattern-of-named-list-then-append": S("from Reduino.Actuators import Led\nled = Led(9)\nxs = [1, 0, 1]\nled.flash_pattern(xs, 10)\nxs.append(0)\nxs.append(1)\nmon.write('done')\n"),
+    "range-len-with-append-in-body": S("xs = [1, 2, 3]\nn = 0\nfor i in range(len(xs)):\n    xs.append(i)\n    n = n + 1\nmon.write(n)\n"),
     # ---- sleeps
     "sleep-expression": S("d = 10\nwhile True:\n    sleep(d)\n    sleep(d * 2)\n    mon.write(d)\n    d = d + 5\n"),
     "sleep-in-branches": S("k = 0\nwhile True:\n    if k % 2 == 0:\n        sleep(100)\n    else:\n        sleep(250)\n    k = k + 1\n    mon.write(k)\n"),
